@@ -552,6 +552,12 @@ _zuc_eia3_1_buffer_avx512(const void *pKey, const void *pIv, const void *pBuffer
                 asm_ZucGenKeystream8B_avx(&keyStream[16], &zucState);
         asm_Eia3RemainderAVX512(&T, &keyStream[0], pIn8, remainingBits);
         *pMacI = T;
+
+#ifdef SAFE_DATA
+        /* Clear sensitive data (in registers and stack) */
+        clear_mem(keyStream, sizeof(keyStream));
+        clear_mem(&zucState, sizeof(zucState));
+#endif
 }
 
 /*
